@@ -18,7 +18,8 @@ LEVEL = 'exploration'
 TECHNIQUE = 'runtime monitoring: ExecComp outputs / partials / totals vs harness NumPy evaluation + complex step'
 RULE = ('random expression trees (depth <= 4) over every callable of exec_comp._expr_dict plus operators, '
         'indexing, transposes and broadcasting, 1-3 expressions per component over <= 4 inputs of shape '
-        '(), (1,), (n<=6,), (r,c<=3); options has_diag_partials x do_coloring x shape_by_conn/copy_shape x '
+        '(), (1,), (n<=6,), (r,c<=4) incl. column/row matrices; user functions registered with '
+        'ExecComp.register; options has_diag_partials x do_coloring x shape_by_conn/copy_shape x '
         'component shape/units x per-variable units (source in other units) x constants x '
         'force_alloc_complex x fwd/rev; plus a sweep with one expression per table function; inputs are '
         'resampled until every function argument is >= 0.2 away from singularities, kinks and branch '
@@ -45,6 +46,15 @@ SHARD_TIMEOUT = {'quick': 900, 'thorough': 3600}
 
 NOISE_DRAWS = 4
 H = 1e-40
+
+
+def register_extras():
+    """Register the harness' user functions (idempotent per process)."""
+    import openmdao.api as om
+    from openmdao.components.exec_comp import _expr_dict
+    for name, f in X.REGISTERED.items():
+        if name not in _expr_dict:
+            om.ExecComp.register(name, f, complex_safe=True)
 
 
 def table_names():
@@ -114,7 +124,7 @@ def make_spec(rng, names, origin='expr', fn=None, depth=None):
     diag = origin == 'expr' and rng.random() < 0.25
     arr_shape = None
     if diag:
-        arr_shape = tuple(X_pick(rng, [(2,), (3,), (4,), (5,), (2, 2), (2, 3)]))
+        arr_shape = tuple(X_pick(rng, [(2,), (3,), (4,), (5,), (2, 2), (2, 3), (3, 1)]))
     g = X.ExprGen(rng, names, diag=diag, arr_shape=arr_shape)
     exprs, outputs = [], {}
     if origin == 'expr':
@@ -122,12 +132,12 @@ def make_spec(rng, names, origin='expr', fn=None, depth=None):
         for i in range(nex):
             depth_i = int(X_pick(rng, [1, 2, 2, 3, 3, 4])) if depth is None else depth
             if diag:
-                shape = X_pick(rng, [arr_shape, arr_shape, arr_shape, (1,)])
-                if tuple(shape) == (1,) and rng.random() < 0.5:
+                shape = X_pick(rng, [arr_shape, arr_shape, arr_shape, arr_shape, (1,), (1,), ()])
+                if tuple(shape) in ((1,), ()) and rng.random() < 0.5:
                     # scalar output that does not depend on array inputs
                     g.no_array = True
             else:
-                shape = X_pick(rng, [(1,), (1,), (), (2,), (3,), (4,), (5,), (6,), (2, 2), (2, 3), (3, 2)])
+                shape = X_pick(rng, [(1,), (1,), (), (2,), (3,), (4,), (5,), (6,), (2, 2), (2, 3), (3, 2), (3, 1), (1, 4)])
             e = g.expr(tuple(shape), depth_i)
             g.no_array = False
             name = 'y%d' % i
@@ -230,8 +240,8 @@ def single_function_expr(rng, g, fn):
         return '%s(%s, %s)' % (fn, g.new_input(shape), g.new_input(shape)), shape
     if fn == 'power':
         return 'power((%s)**2 + 0.5, %s)' % (g.new_input(shape), g.new_input(shape)), shape
-    if fn == 'arctan2':
-        return 'arctan2(%s, %s)' % (g.new_input(shape), g.new_input(shape)), shape
+    if fn in ('arctan2', 'omv_hyp'):
+        return '%s(%s, %s)' % (fn, g.new_input(shape), g.new_input(shape)), shape
     if fn in ('isinf', 'isnan'):
         a = g.new_input(shape)
         return '(2.0 - %s(%s)) * %s' % (fn, a, a), shape
@@ -566,6 +576,7 @@ def shards(tier, seed):
 
 def run_shard(shard, acc):
     rng = np.random.default_rng(shard['seed'])
+    register_extras()
     names = table_names()
     for n in names:
         if n not in X.KNOWN:
@@ -588,6 +599,7 @@ def run_shard(shard, acc):
 
 
 def run_case(case, acc):
+    register_extras()
     judge(case, acc, seed=0)
 
 
